@@ -11,11 +11,13 @@ REQUIRED_THEOREMS = ['Props.C18.split_concat', 'Props.C18.split_sizes', 'Props.C
                      'Props.C18.oneHot_row', 'Props.C18.loader_reiterable', 'Props.C18.loops_all_from_start', 'Props.C18.oneHot_map_strictMono', 'Props.C18.oneHot_distinct_columns']
 RULE = ('split: every n in a range x test fraction x val fraction (or none) x shuffle off / on with a drawn seed; '
         'loader: (nx, ny, batch) incl. batch 0, batch > n, with and without transform (callable object, DataLoaderCallback subclass, falsy callable, plain function), iterated twice; programs of 2-5 successive for-loops over one loader object, each abandoned after k batches (break, or explicit iter/next) or exhausted; '
+        'DATA LAYOUT of split / loader / loops: labels of every rank ((n,), (n,1), (n,k) one-hot / multi-output, (n,k,m)) and features of every rank ((n,), (n,d), (n,d,e), (n,c,h,w)), each handed over as ndarray (int64 / float64 / float32), '
+        'list (of scalars / of lists), tuple, list of row arrays - every label layout x container occurs in the (n, batch) grid of every run; every ELEMENT of every returned row is decoded and must name the same sample; '
         'one-hot: label sets of every kind (integers of every width incl. negative and beyond 2^53, booleans, strings incl. prefixes / the empty string / non-ASCII, '
         'float64 and float32 labels: ordinary ones, consecutive large class ids, 1 + k*1e-6, tiny and denormal magnitudes, chains of ADJACENT floats (np.nextafter), both zeros, infinities, Python int/float mixtures), '
         'unsorted with repeats, handed over as ndarray / list / tuple / the float32 array split_dataset returns; the labels reach the model through an order-preserving injection into the integers '
         '(floats: sign-magnitude bit pattern, strings: code points in a fixed-width positional system), so the model compares labels EXACTLY. A case is non-trivial when n > 0 (and, for split, at least two parts are '
-        'non-empty or a shuffle happened); distinct = distinct protocol line')
+        'non-empty or a shuffle happened); distinct = distinct (protocol line, data layout)')
 EXHAUSTIVE = {'quick': False, 'thorough': False}
 ASSUMPTIONS = ['np.random.shuffle is deterministic given the global seed (the permutation is captured from it)',
                'np.floor / float multiply are IEEE binary64 as in Lean Float']
@@ -31,6 +33,57 @@ def _data(n):
     return X, y
 
 
+# ---- data layouts: rank and container of features and labels ----------------------------------------
+# Sample i carries, at flat position j of its row, the value base + scale*i + 100000*j (exact in float32), so every element of a
+# returned row names its sample and its place.  The model sees only the NUMBER of samples (len of the outer container): the
+# property speaks about samples, whatever a sample is made of.
+Y_SHAPES = [(), (1,), (2,), (3,), (5,), (2, 2), (1, 1), (3, 1)]
+X_SHAPES = [(), (1,), (2,), (4,), (2, 3), (1, 2, 2)]
+CONTAINERS = ['array', 'array-f64', 'array-f32', 'list', 'tuple', 'list-of-arrays']
+LAYOUTS_Y = [(s, k) for s in Y_SHAPES for k in CONTAINERS]
+
+
+def _gen_layout(rng, j=None):
+    """layout j of the label grid (all label shapes x containers) when j is given, else a random one; features random"""
+    ys, yc = LAYOUTS_Y[j % len(LAYOUTS_Y)] if j is not None else (rng.pick(Y_SHAPES), rng.pick(CONTAINERS))
+    return {'xs': list(rng.pick(X_SHAPES)), 'xc': rng.pick(CONTAINERS), 'ys': list(ys), 'yc': yc}
+
+
+def _mk(n, shape, cont, base, scale):
+    shape = tuple(shape)
+    m = int(np.prod(shape, dtype=int))
+    arr = np.zeros((n,) + shape, dtype=np.int64)
+    for i in range(n):
+        arr[i] = base + scale * i + 100000 * np.arange(m).reshape(shape)
+    if cont == 'array': return arr
+    if cont == 'array-f64': return arr.astype(np.float64)
+    if cont == 'array-f32': return arr.astype(np.float32)
+    if cont == 'list': return arr.tolist()
+    if cont == 'tuple': return tuple(arr.tolist())
+    return [arr[i] for i in range(n)]          # list of row arrays (NumPy scalars for rank-0 rows)
+
+
+def _decode(rows, shape, base, scale):
+    """sample position named by each returned row (every element must agree, and the row must have the sample's shape); -1 otherwise"""
+    out = []
+    for row in rows:
+        r = np.asarray(row, dtype=np.float64)
+        if r.shape != tuple(shape) or r.size == 0:
+            out.append(-1); continue
+        r = r.ravel()
+        p = int(round((float(r[0]) - base) / scale))
+        ok = all(float(r[j]) == base + scale * p + 100000 * j for j in range(r.size))
+        out.append(p if ok else -1)
+    return out
+
+
+def _lay_data(c):
+    lay = c.get('lay') or {'xs': [], 'xc': 'array', 'ys': [], 'yc': 'array'}
+    X = _mk(c['nx'] if 'nx' in c else c['n'], lay['xs'], lay['xc'], 0, 10)
+    y = _mk(c['ny'] if 'ny' in c else c['n'], lay['ys'], lay['yc'], 1000, 1)
+    return X, y, lay
+
+
 def cases(rng, tier):
     out = []
     nmax = 40 if tier == 'quick' else 120
@@ -43,18 +96,26 @@ def cases(rng, tier):
             shuffle = rng.chance(0.4)
             seed = rng.randrange(2 ** 31) if shuffle else None
             out.append({'kind': 'split', 'n': n, 'tf': tf, 'vf': vf, 'seed': seed})
+            if rng.chance(.5):
+                out[-1]['lay'] = _gen_layout(rng)
     for n in (range(0, 14) if tier == 'quick' else range(0, 41)):
         for b in range(0, n + 4):
             out.append({'kind': 'loader', 'nx': n, 'ny': n, 'b': b, 'transform': (n + b) % 2 == 0})
+            # the same (n, batch) point under a data layout: the grid walks through every label shape x container
+            out.append({'kind': 'loader', 'nx': n, 'ny': n, 'b': b, 'transform': (n + b) % 2 == 1, 'lay': _gen_layout(rng, len(out) // 2)})
     for _ in range(20 if tier == 'quick' else 200):
         ny = rng.randint(0, 20)
         out.append({'kind': 'loader', 'nx': rng.randint(0, 20), 'ny': ny, 'b': rng.randint(1, 8), 'transform': rng.chance(.5)})
+        if rng.chance(.6):
+            out[-1]['lay'] = _gen_layout(rng)
     # successive for-loops over ONE loader object, some abandoned after k items (break), some run to exhaustion
     for _ in range(60 if tier == 'quick' else 1500):
         n = rng.randint(0, 14); b = rng.randint(0, 5) if rng.chance(.1) else rng.randint(1, 5)
         L = n // b if b else 0
         ks = [rng.pick([0, 1, 1, 2, L, L + 1, L + 3, rng.randint(0, L + 2)]) for _ in range(rng.randint(2, 5))]
         out.append({'kind': 'loops', 'nx': n, 'ny': n, 'b': b, 'ks': ks, 'transform': rng.chance(.3), 'how': rng.pick(['break', 'next'])})
+        if rng.chance(.6):
+            out[-1]['lay'] = _gen_layout(rng)
     for _ in range(40 if tier == 'quick' else 400):
         k = rng.randint(0, 12)
         lo = rng.randint(-5, 3)
@@ -65,7 +126,9 @@ def cases(rng, tier):
         out.append(_gen_labels(rng, fams[j % len(fams)]))
     for c in out:
         c['lines'] = [_line(c)]
-        c['desc'] = c['lines'][0] if 'fam' not in c else f"one_hot_encode of the {c['fam']} labels {c['ys']!r} ({c['dtype'] or 'python values'} in a {c['cont']}) : {c['lines'][0]}"[:700]
+        if c.get('lay'):
+            c['key'] = [c['lines'][0], repr(sorted(c['lay'].items()))]
+        c['desc'] = (c['lines'][0] + (f" [features: rows of shape {tuple(c['lay']['xs'])} in a {c['lay']['xc']}; labels: rows of shape {tuple(c['lay']['ys'])} in a {c['lay']['yc']}]" if c.get('lay') else '')) if 'fam' not in c else f"one_hot_encode of the {c['fam']} labels {c['ys']!r} ({c['dtype'] or 'python values'} in a {c['cont']}) : {c['lines'][0]}"[:700]
     return out
 
 
@@ -231,6 +294,9 @@ def _positions(Xp, yp):
 def _run_split(c):
     from synapgrad.nn.utils.data import split_dataset
     X, y = _data(c['n'])
+    lay = None
+    if c.get('lay'):
+        X, y, lay = _lay_data(c)
     if c['seed'] is not None:
         np.random.seed(c['seed'])
     train, test, val = split_dataset(X, y, test_split=c['tf'], val_split=c['vf'], shuffle=c['seed'] is not None)
@@ -239,7 +305,11 @@ def _run_split(c):
         if part is None:
             parts.append(None)
             continue
-        p = _positions(part[0], part[1])
+        if lay:
+            px, py = _decode(part[0], lay['xs'], 0, 10), _decode(part[1], lay['ys'], 1000, 1)
+            p = px if px == py and -1 not in px else None
+        else:
+            p = _positions(part[0], part[1])
         if p is None:
             return 'mispaired'
         parts.append(p)
@@ -274,8 +344,7 @@ def _mk_tf(c):
 
 def _run_loader(c):
     from synapgrad.nn.utils.data import DataLoader
-    X = np.arange(c['nx']) * 10
-    y = np.arange(c['ny']) + 1000
+    X, y, lay = _lay_data(c)
     dl = DataLoader(X, y, c['b'], _mk_tf(c))
     n = len(dl)
     passes = []
@@ -285,7 +354,7 @@ def _run_loader(c):
             if c['transform']:
                 assert item[0] == 'tf'
                 item = item[1:]
-            bs.append(([int(v) // 10 for v in item[0]], [int(v) - 1000 for v in item[1]]))
+            bs.append((_decode(item[0], lay['xs'], 0, 10), _decode(item[1], lay['ys'], 1000, 1)))
         passes.append(bs)
     if passes[0] != passes[1]:
         return 'reiteration-differs'
@@ -294,14 +363,13 @@ def _run_loader(c):
 
 def _run_loops(c):
     from synapgrad.nn.utils.data import DataLoader
-    X = np.arange(c['nx']) * 10
-    y = np.arange(c['ny']) + 1000
+    X, y, lay = _lay_data(c)
     dl = DataLoader(X, y, c['b'], _mk_tf(c))
     loops = []
     def conv(item):
         if c['transform']:
             assert item[0] == 'tf'; item = item[1:]
-        return ([int(v) // 10 for v in item[0]], [int(v) - 1000 for v in item[1]])
+        return (_decode(item[0], lay['xs'], 0, 10), _decode(item[1], lay['ys'], 1000, 1))
     for k in c['ks']:
         seen = []
         if c['how'] == 'break':                 # the model's `consume k`: at most k calls of __next__
@@ -367,6 +435,12 @@ def distribution(cases):
             k += f"/{c['fam']}"
             d[f"onehot labels as {c['dtype'] or 'python values'} in a {c['cont']}"] = d.get(f"onehot labels as {c['dtype'] or 'python values'} in a {c['cont']}", 0) + 1
         d[k] = d.get(k, 0) + 1
+        if c['kind'] != 'onehot':
+            lay = c.get('lay')
+            for k2 in ([f"{c['kind']}: plain 1-d arrays"] if not lay else
+                       [f"{c['kind']}: labels with rows of shape {tuple(lay['ys'])}", f"{c['kind']}: labels in a {lay['yc']}",
+                        f"{c['kind']}: features with rows of shape {tuple(lay['xs'])}", f"{c['kind']}: features in a {lay['xc']}"]):
+                d[k2] = d.get(k2, 0) + 1
     return d
 
 
